@@ -24,8 +24,8 @@ import (
 type C41 struct{}
 
 type C41Op struct {
-	Kind string `json:"kind"` // open | write | read | close | kill | tear | stale-index
-	P    int    `json:"p"`    // process
+	Kind string `json:"kind"`           // open | write | read | close | kill | tear | stale-index
+	P    int    `json:"p"`              // process
 	Mode string `json:"mode,omitempty"` // open: default | failfast | skiptimeout | failfast-skip
 	Seed uint64 `json:"seed,omitempty"`
 }
@@ -326,7 +326,7 @@ func (C41) Execute(t *testing.T, sc *core.Scenario) *core.Result {
 				f, err := os.OpenFile(jp, os.O_WRONLY|os.O_APPEND, 0)
 				if err == nil {
 					g := r.Bytes(r.Range(1, 60))
-					if r.Chance(1, 2) {
+					if r.Chance(1, 2) && len(g) >= 4 {
 						g[0], g[1], g[2], g[3] = 0, 0, 0, byte(len(g)+r.Intn(40)) // plausible length, cut short
 					}
 					f.Write(g)
